@@ -43,7 +43,7 @@ fn case_dt(day: i64, nod: u64, prev: i32, o: i32, partner: (i64, u64), deep: boo
     // ---- set_offset
     let got = call(|| {
         let y = x.set_offset(Offset::Fixed(o));
-        (y.timestamp(), off_secs(y.get_offset()), y == x, y.cmp(&x), y.cmp(&p), y.nanos_since(&p), getters(&y), if deep { y.format(PATTERN) } else { String::new() }, if deep { [y.days_since(&p) as i128, y.hours_since(&p) as i128, y.minutes_since(&p) as i128, y.seconds_since(&p) as i128, y.millis_since(&p), y.micros_since(&p)] } else { [0; 6] })
+        (y.timestamp(), off_secs(y.get_offset()), y == x, y.cmp(&x), y.cmp(&p), y.nanos_since(&p), getters(&y), if deep { y.format(PATTERN) } else { String::new() }, if deep { [y.days_since(&p) as i128, y.hours_since(&p) as i128, y.minutes_since(&p) as i128, y.seconds_since(&p) as i128, y.millis_since(&p), y.micros_since(&p), y.months_since(&p) as i128 - x.set_offset(Offset::Fixed(0)).months_since(&p) as i128, y.years_since(&p) as i128 - x.set_offset(Offset::Fixed(0)).years_since(&p) as i128] } else { [0; 8] })
     });
     let pinst = ins::join(partner.0, partner.1);
     match &got {
@@ -61,7 +61,8 @@ fn case_dt(day: i64, nod: u64, prev: i32, o: i32, partner: (i64, u64), deep: boo
                     acc.violation("DateTime::format after set_offset", &format!("format-{}", oclass(o)), case(), want, fm.clone());
                 }
                 let d = inst - pinst;
-                let ws = [d / crate::props::c04::UNITS[0].1, d / crate::props::c04::UNITS[1].1, d / crate::props::c04::UNITS[2].1, d / crate::props::c04::UNITS[3].1, d / crate::props::c04::UNITS[4].1, d / crate::props::c04::UNITS[5].1];
+                // months / years: the value under the offset minus the value at offset 0 must be 0
+                let ws = [d / crate::props::c04::UNITS[0].1, d / crate::props::c04::UNITS[1].1, d / crate::props::c04::UNITS[2].1, d / crate::props::c04::UNITS[3].1, d / crate::props::c04::UNITS[4].1, d / crate::props::c04::UNITS[5].1, 0, 0];
                 if *sinces != ws {
                     acc.violation("DateTime::*_since after set_offset", "differences-changed", case(), format!("{:?}", ws), format!("{:?}", sinces));
                 }
